@@ -114,6 +114,38 @@ CHECKS.update({
         ref="5 (C09)", technique="crash-point enumeration (SIGKILL) + trace validation (TLC) + TLA+ model checking"),
 })
 
+CHECKS.update({
+    "C16": dict(
+        text="(1) TLC evaluates the key-layout theorems of spec/Keys.tla over the boundary lattice index {0,1,255,256,65534,65535} x kind x id {0,1,255,256,2^16,2^24,2^31,2^32-1}: byte order = (index, kind, id) order, prefixes and the closed tree range select exactly one index (and kind), "
+             "indexes are contiguous intervals, the append rule. (2) reference -> current: golden key/value fixtures (fixtures/*.json, one per metric: three indexes incl. 65535, splits, buckets, single-item children on both sides, recycled node ids, pending updates) are put byte for byte "
+             "into a fresh environment; TraceMain.tla (action Load) requires: every key re-encodes to its bytes with Enc and keys are sorted, the API (contains/item_vector/iter/open/reader) shows exactly what the reference decoder finds in the bytes, the recorded items come back bit for bit, "
+             "the recorded queries return the recorded neighbours and distances (4 ulp), the forests are valid, the query lattice is exact; then an incremental update and rebuild is validated like any history. "
+             "(3) current -> reference: every dump of the store / metric / forest drivers is decoded by the reference decoder written from DESIGN.md Appendix A; any framing problem (tag, child kind, widths, metadata framing, padding) is a C16 conjunct.",
+        note="Not decided by the specification: the internal bytes of roaring bitmaps (delegated to the roaring crate's portable format on both sides). The fixtures were generated with this harness from the reference tree (format unchanged by the fix commits).",
+        ref="5 (C16), Appendix A", technique="TLC-evaluated layout theorems + trace validation of golden fixtures and of every dump (TLC)"),
+    "C17": dict(
+        text="(1) spec/Upgrade.tla states the two upgrades as functions on abstract indexes; TLC checks Up04to05(Down05to04(ix)) = ix and the version-stamp rule as an invariant over every index value reachable in the MC_Forest model. "
+             "(2) cosine databases produced by the forest driver (several indexes, pending updates, single-item children) are inverted byte-wise into the 0.4 layout, loaded into an environment, the real cosine_from_0_4_to_0_5 is run into a second environment; "
+             "TraceUp.tla requires: result Ok, abstract content = Up04to05(old) for every index, zero keys whose bytes differ from the current-layout original, Reader::open = Ok or NeedBuild exactly when updates were pending, valid forests. "
+             "Same for from_0_5_to_0_6 on databases of all metrics with the version records removed: a version record exactly where there is metadata, nothing else changed, none in other indexes. Conformance (DRIFT): the harness's byte-level inversion agrees with Down05to04.",
+        note="The 0.4 layout is the one of DESIGN.md Appendix A (written from src/upgrade.rs); no genuine 0.4 database was available offline.",
+        ref="5 (C17)", technique="TLA+ model checking of the upgrade functions + trace validation of real upgrades (TLC)"),
+    "C12": dict(
+        text="(1) TLC evaluates the theorems of spec/Numeric.tla: Unpack(Pack(s)) = s and zero padding for every sign pattern of every dimension 1..10 and boundary templates at 63/64/65/127/128/129/300; the three distances as rationals of h. "
+             "(2) for every dimension 1..300, sign patterns (exhaustive for d <= 7, thorough 12; templates and random beyond) with components drawn from {+-0, tiny, 1, f32::MAX, inf, NaN} by wanted sign bit go through from_slice, from_vec, to_vec (SSE), iter, len; "
+             "all three distances through the public Distance functions on pairs; and end to end add_item -> raw stored words -> item_vector -> by_vector. TraceNum.tla: read-back = sign pattern on every path at the declared dimension, padding zero, stored length, "
+             "10^6 x distance = 10^6 x 4h/d (2h/d, h/padded d) within 3 millionths, zero on equal patterns, symmetric, neighbours ordered by h.",
+        note="The float division is compared through integer rounding to millionths. The NEON path cannot run on this host.",
+        ref="5 (C12)", technique="TLC-evaluated theorems + trace validation of conversion/distance cases (TLC)"),
+    "C11": dict(
+        text="RESTRICTED CLAIM (DESIGN.md section 6). (1) TLC evaluates the lane-structure theorem of spec/Numeric.tla: for every length 1..300 and each path (AVX 4x8 lanes, SSE 4x4 lanes, scalar) every index is consumed exactly once (main loop bound, tail), dispatch thresholds. "
+             "(2) exact-arithmetic probe families (one-hot pairs, small-integer ramps, sign vectors, explicit small-integer vectors: every f32 partial sum is an exact integer in any association order) for every length 1..300 at byte offsets 0..7 through the public Distance functions on "
+             "vectors borrowed unaligned; TraceNum.tla recomputes the expected integers (sum of squares, sum of absolute differences, dot product; cosine 0, 1/2, 1 on parallel / orthogonal / opposite axis vectors) and requires equality, symmetry and zero self-distance. "
+             "(3) end to end: the reported-distance conjunct of the search driver (f64 oracle with a rounding bound) over dimensions up to 130.",
+        note="NOT decided: 'within the rounding error of single-precision summation' on cancellation-prone, tiny, huge and subnormal inputs beyond the oracle's bound, and NEON: outside what an explicit TLA+ model can state. The SSE kernels are reached only for lengths 16..31 on this AVX host (hook H4 not built).",
+        ref="5 (C11), 6", technique="TLC-evaluated lane-structure theorem + trace validation of exact-arithmetic kernel cases (TLC)"),
+})
+
 REASONS_NOT_YET = "check not built yet (work in progress; DESIGN.md section 9 gives the order of work)"
 
 
@@ -135,7 +167,7 @@ def main():
     na = [dict(property_id=p, reason=NA.get(p, REASONS_NOT_YET)) for p in ALL if p not in CHECKS]
     m = dict(
         version=1,
-        setup_cmd="cd /verif/harness && cargo build --release 2>&1 | tail -3 && cd /verif/spec && for m in Forest Store Search Arroy TraceMain NodeIds TraceIds Txn TraceTxn; do tla-sany $m.tla > /dev/null || exit 1; done",
+        setup_cmd="cd /verif/harness && cargo build --release 2>&1 | tail -3 && cd /verif/spec && for m in Forest Store Search Upgrade Arroy TraceMain NodeIds TraceIds Txn TraceTxn Keys TraceUp NumericMC TraceNum; do tla-sany $m.tla > /dev/null || exit 1; done",
         hooks=dict(
             guard="--cfg arroy_verif",
             enable="rustflags = [\"--cfg\", \"arroy_verif\", \"--check-cfg\", \"cfg(arroy_verif)\"] in /verif/harness/.cargo/config.toml; the harness depends on /repo by path, so every check rebuilds /repo's working tree with the hooks on",
